@@ -1,7 +1,7 @@
 (* C12 - Gap filling yields a contiguous series of flat, zero-volume candles. *)
 From Coq Require Import ZArith List Bool.
 From Hexital Require Import Base.Prelude Base.Num Model.Manager Model.Candle
-  Proofs.CollapseProofs Proofs.FillProofs.
+  Proofs.CollapseProofs Proofs.FillProofs Proofs.FillCompose.
 Import ListNotations.
 Local Open Scope Z_scope.
 
@@ -64,3 +64,16 @@ Example C12_example :
   fill Z (fun x => x) 60 [Build_cd 60 1; Build_cd 240 2; Build_cd 300 3]
   = Ok [Build_cd 60 1; Build_cd 120 1; Build_cd 180 1; Build_cd 240 2; Build_cd 300 3].
 Proof. reflexivity. Qed.
+
+(* "the outcome is the same for every append schedule": D is the manager's state (timeframe
+   and timeframe_fill set) after the raw stream xs; appending ys re-collapses D ++ ys - the
+   filled series followed by raw candles - and fills again; the result is collapse + fill of
+   the whole raw stream (value or exception alike).  By induction over the chunks, any split
+   of a stream into appends ends in the same series. *)
+Theorem C12_schedule_independent :
+  forall (O : NumOps) (tf : Z) (xs ys D : list (cd (payload O))),
+  0 < tf -> sorted (payload O) (xs ++ ys) ->
+  tasks O (tf_fill_cfg tf) xs = Ok D ->
+  mgr_append O (tf_fill_cfg tf) D ys = tasks O (tf_fill_cfg tf) (xs ++ ys).
+Proof. intros O tf xs ys D Htf Hs HD. eapply manager_fill_incremental; eassumption. Qed.
+Print Assumptions C12_schedule_independent.
